@@ -215,11 +215,18 @@ class Gen:
         return ('Pn', self.g(self.subkind(kind), d - 1), self.repeats(0, 3))
 
     def mk_Plen(self, kind, d):
-        return ('Plen', self.g(self.subkind(kind), d - 1),
-                self.r.choice([0, 1, 2, 3, 4, 5, 6, 7, 9, 12, 70]))
+        sub = self.g(self.subkind(kind), d - 1)
+        n = self.r.choice([0, 1, 2, 3, 4, 5, 6, 7, 9, 12, 70])
+        if self.r.random() < 0.3:
+            n = self.near_len(sub, n)
+        return ('Plen', sub, n)
 
     def mk_Pdrop(self, kind, d):
-        return ('Pdrop', self.g(self.subkind(kind), d - 1), self.r.randint(0, 5))
+        sub = self.g(self.subkind(kind), d - 1)
+        n = self.r.randint(0, 5)
+        if self.r.random() < 0.3:
+            n = self.near_len(sub, n)
+        return ('Pdrop', sub, n)
 
     def mk_Pstutter(self, kind, d):
         return ('Pstutter', self.g(self.subkind(kind), d - 1),
@@ -270,9 +277,213 @@ class Gen:
 
     def mk_Pconst(self, kind, d):
         k = self.nk(kind)
-        total = self.r.choice([1, 3, 6, 10, 17]) if k == 'int' else \
-            self.r.choice([0.75, 2.5, 4.0, 9.25])
+        r = self.r
+        if r.random() < 0.45:
+            # a constructed source whose running total lands at a chosen place
+            # of the tolerance window (see pconst_edge)
+            # (below a wrap / mod only dyadic data: see gx)
+            return self.pconst_edge('int' if k == 'int' else
+                                    r.choice(['dyadic', 'coarse']) if self.exact
+                                    else None)
+        total = r.choice([1, 3, 6, 10, 17]) if k == 'int' else \
+            r.choice([0.75, 2.5, 4.0, 9.25])
+        if r.random() < 0.3:
+            # an explicit tolerance with an arbitrary source: whatever zone the
+            # totals fall into (the model gives no verdict at the undecided ones)
+            tol = r.choice([1, 2, 3, 0, 0.5]) if k == 'int' else \
+                r.choice([0.125, 0.5, 1.0, 0.001, 0.0, 0.0625, 1])
+            return ('Pconst', self.gx(k, d - 1), total, tol)
         return ('Pconst', self.gx(k, d - 1), total)
+
+    # ---- numeric edges (round 9) ------------------------------------------------
+    # Pconst: `tolerance` decides at which running total the pattern ends.  The
+    # source is planned in integer units u (tolerance = U units, sum = S units):
+    # a prefix whose totals stay outside the window, one value that lands L
+    # units below the sum (L < 0: beyond it), then a tail, so that what the
+    # pattern does AT that total (end with the remainder / hand the value on)
+    # shows in length and content.  Families: tolerance left out (0.001) or
+    # decimal (data on a grid of tolerance / 10: 0.7493), dyadic and coarse
+    # tolerances (0.5, 0.25, 1.5: data on tolerance / 8 or / 4), int tolerance
+    # with int data, int data with a tolerance below 1.
+    PCONST_FAMILIES = ['default', 'default', 'default', 'decimal', 'decimal', 'dyadic',
+                       'dyadic', 'coarse', 'coarse', 'int', 'int', 'intdata']
+
+    def pconst_edge(self, fam=None):
+        r = self.r
+        ints_only = fam == 'int'
+        if fam == 'int':
+            fam = r.choice(['int', 'int', 'intdata'])
+        elif fam is None:
+            fam = r.choice(self.PCONST_FAMILIES)
+        sum_int = False
+        if fam in ('default', 'decimal'):
+            # (0.3, 0.03, 0.15, 0.6: decimals whose double lies below them)
+            tol = 0.001 if fam == 'default' else r.choice([0.01, 0.1, 0.05, 0.02, 0.001,
+                                                            0.005, 0.0001, 0.2, 0.3,
+                                                            0.03, 0.15, 0.6])
+            U = 10
+            conv = lambda n: round(n * tol / 10, 12)
+            sums = [x for x in (0.5, 1.0, 1.5, 2.0, 3.0, 4.0, 0.25, 10.0, 1, 2, 4, 5, 8,
+                                0.1, 0.75, 1.2, 2.4, 0.9, 0.6, 1.8, 3, 6, 0.45, 0.12)
+                    if abs(x / tol - round(x / tol)) < 1e-6 and 1 <= round(x / tol) <= 20000]
+            total = r.choice(sums)
+            S = round(total / tol) * U
+            omit = fam == 'default' and r.random() < 0.7
+        elif fam in ('dyadic', 'coarse'):
+            if fam == 'dyadic':
+                tol, U = r.choice([0.125, 0.0625, 2.0 ** -10, 0.25, 0.03125]), 8
+            else:
+                tol, U = r.choice([0.5, 0.25, 1.5, 2.5, 1.0, 2.0, 4.0, 1, 2]), r.choice([4, 8])
+            conv = lambda n: n * (float(tol) / U)
+            K = r.randint(1, 24 if fam == 'dyadic' else 9)
+            total = K * tol
+            if float(total).is_integer() and r.random() < 0.5:
+                total = int(total)
+            S = K * U
+            omit = False
+        elif fam == 'int':
+            tol = r.choice([2, 3, 4, 6, 2, 4, 1, 8])
+            U = tol
+            conv = lambda n: n
+            K = r.randint(1, 8)
+            total, S = K * tol, K * U
+            omit = False
+        else:                   # int data, tolerance smaller than the data's grid
+            tol = r.choice([0.001, 0.001, 0.5, 0.0, 0, 0.25])
+            U = 0
+            conv = lambda n: n
+            total = S = r.randint(1, 24)
+            omit = tol == 0.001 and r.random() < 0.7
+        if U and r.random() < 0.1:
+            # a sum that is not a multiple of the tolerance: decided only
+            # outside the window (model) / by the reading-independent audit
+            off = r.randint(1, U - 1) if U > 1 else 0
+            S += off
+            total = conv(S) if fam != 'int' else S
+        # ---- where the deciding total lands -----------------------------------
+        if U >= 2:
+            h = U // 2
+            lands = [0, 0, -1, -U, 1, h, h + 1, U - 1, U - 1, h + 1, U, U + 1, 2 * U,
+                     U + h] + ([h - 1] if h > 1 else [])
+        else:
+            lands = [0, 0, -1, -2, 1, 2, 3]
+        L = r.choice(lands)
+        t = S - L
+        if t < 1:
+            L, t = 0, S
+        last_min = max(1, U - L + 1)
+        if t <= last_min:
+            last = t
+        else:
+            last = r.randint(last_min, min(t, last_min + 3 * max(U, 2)))
+        P = t - last
+        items = self.units_prefix(P, conv, total, tol, omit) if P > 0 else []
+        items.append(conv(last))
+        for _ in range(r.choice([0, 1, 1, 2, 3])):
+            items.append(conv(r.randint(1, 2 * max(U, 2))))
+        if fam == 'intdata' and not ints_only and r.random() < 0.3:
+            items = [float(i) if not isnode(i) and r.random() < 0.5 else i for i in items]
+        src = ('Pseq', items, INF if r.random() < 0.5 else 1, 0)
+        if omit:
+            return ('Pconst', src, total)
+        return ('Pconst', src, total, tol)
+
+    def units_prefix(self, P, conv, total, tol, omit):
+        """items (numbers and patterns) whose values add up to P units"""
+        r = self.r
+        shape = r.choice(['lits', 'lits', 'series', 'geom', 'stutter', 'repeat', 'const'])
+        items, rem = [], P
+        if shape == 'series' and P >= 3:
+            n = r.randint(2, 12)        # (accumulated: start, start + step, ...)
+            st = r.randint(0, 3)
+            a = (P - st * n * (n - 1) // 2) // n
+            if a >= 1:
+                items.append(('Pseries', conv(a), conv(st), n))
+                rem = P - (n * a + st * n * (n - 1) // 2)
+        elif shape == 'geom' and P >= 3:
+            n = r.randint(2, 4)
+            a = P // (2 ** n - 1)
+            if a >= 1:
+                items.append(('Pgeom', conv(a), 2, n))
+                rem = P - a * (2 ** n - 1)
+        elif shape == 'stutter' and P >= 2:
+            c1, c2 = r.randint(1, 3), r.randint(0, 2)
+            a = P // (c1 + c2)
+            if a >= 1:
+                items.append(('Pstutter', ('Pseq', [conv(a), conv(a + 1), conv(a)], 1, 0),
+                              ('Pseq', [c1, 0, c2], 1, 0)))
+                rem = P - a * (c1 + c2)
+        elif shape == 'repeat' and P >= 2:
+            n = r.randint(2, 6)
+            a = P // n
+            if a >= 1:
+                items.append(('Pn', ('Pseq', [conv(a)], 1, 0), n) if r.random() < 0.5
+                             else ('Pseq', [conv(a)], n, 0))
+                rem = P - a * n
+        elif shape == 'const' and P >= 2:
+            # the values of a constrained sum add up to its sum
+            x = r.randint(1, P)
+            inner = ('Pconst', ('Pseq', [conv(x)], INF, 0), conv(P))
+            items.append(inner if omit else inner + (tol,))
+            rem = 0
+        if rem > 0:
+            m = r.randint(1, min(4, rem))
+            cuts = sorted(r.sample(range(1, rem), m - 1)) if m > 1 else []
+            parts = [b - a for a, b in zip([0] + cuts, cuts + [rem])]
+            lits = [conv(x) for x in parts]
+            if r.random() < 0.5:
+                items = items + lits
+            else:
+                items = lits + items
+        return items
+
+    def near_len(self, sub, n_default):
+        """a count at or next to the length of sub's sequence (truncation /
+        dropping / clumping exactly at the end, one before, one beyond)"""
+        from vf import model_patterns as mp
+        try:
+            vals, ended = mp.take(sub, 40, fuel=4000)
+        except Exception:
+            return n_default
+        if not ended:
+            return n_default
+        return max(0, len(vals) + self.r.choice([-1, 0, 0, 1]))
+
+    def edge(self, d):
+        """an expression around one numeric edge, nested in up to 2 contexts"""
+        r = self.r
+        node = self.pconst_edge()
+        for _ in range(r.choice([0, 1, 1, 2])):
+            c = r.choice(['seq', 'seq', 'pn', 'stutter', 'len', 'drop', 'add', 'clump',
+                          'diff', 'ident', 'switch1', 'outer'])
+            if c == 'seq':
+                node = ('Pseq', [node, r.choice([-1, 0.5, 7])], r.choice([2, 2, 3]), 0)
+            elif c == 'pn':
+                node = ('Pn', node, 2)
+            elif c == 'stutter':
+                node = ('Pstutter', node, self.count(0, 2, 1))
+            elif c == 'len':
+                node = ('Plen', node, self.near_len(node, 3))
+            elif c == 'drop':
+                node = ('Pdrop', node, self.near_len(node, 1))
+            elif c == 'add':
+                node = ('Pbinop', 'add', 'op', node, r.choice([0, 1, 0.5])) \
+                    if r.random() < 0.5 else \
+                    ('Pbinop', 'add', 'op', r.choice([0, 1, 0.5]), node)
+            elif c == 'clump':
+                node = ('Pflatten', ('Pclump', node, self.count(0, 3, 1)), 1)
+            elif c == 'diff':
+                node = ('Pdiff', node)
+            elif c == 'ident':
+                node = ('Pcollect', 'ident', node)
+            elif c == 'switch1':
+                node = ('Pswitch1', [node, 9], ('Pseq', [0, 0, 1], INF, 0))
+            else:
+                # a constrained sum of constrained sums: the inner sequences
+                # add up to their sums, the outer one cuts after some of them
+                if node[0] == 'Pconst' and isinstance(node[2], int):
+                    node = ('Pconst', ('Pn', node, INF), node[2] * 2 + r.choice([0, 1]))
+        return node
 
     def bkind(self, k):
         """kind of the bounds: mostly the receiver's, sometimes the other
@@ -647,8 +858,14 @@ class Gen:
     def mk_Pclump(self, kind, d):
         src = self.g('num' if kind == 'list1' else 'list1', d - 1)
         n = self.count(1, 4, d)
-        if self.r.random() < 0.05:
+        c = self.r.random()
+        if c < 0.05:
             n = 0
+        elif c < 0.2:
+            # pattern-valued sizes with zeros among them (an empty list each)
+            n = self.count(0, 3, d)
+        elif c < 0.35:
+            n = max(1, self.near_len(src, 2))       # the whole source / one short
         return ('Pclump', src, n)
 
     def mk_Ptuple(self, kind, d):
@@ -659,12 +876,17 @@ class Gen:
         return ('Ptuple', items, self.repeats(0, 3))
 
 
+EDGE_SHARE = 0.14      # share of numeric cases built around a numeric edge
+
+
 def gen_expr(rng, max_depth=5):
     g = Gen(rng, max_depth)
     kind = rng.choices(['int', 'flt', 'num', 'bool', 'list1', 'list2', 'tup', 'evt'],
                        [5, 4, 4, 1.5, 1.5, 0.7, 1.2, 0.8])[0]
     d = rng.choices([1, 2, 3, 4, 5], [1, 3, 4, 3, 2])[0]
     d = min(d, max_depth)
+    if kind in ('int', 'flt', 'num') and rng.random() < EDGE_SHARE:
+        return 'num', g.edge(d)
     return kind, g.g(kind, d)
 
 
